@@ -11,6 +11,9 @@ func init() {
 	vfRegister("VfRIB_q2", VfRIB_q2)
 	vfRegister("VfRIB_qNoFwd", VfRIB_qNoFwd)
 	vfRegister("VfRIB_q3", VfRIB_q3)
+	vfRegister("VfRIB_qx", VfRIB_qx)
+	vfRegister("VfRIB_qo", VfRIB_qo)
+	vfRegister("VfRIB_qx2", VfRIB_qx2)
 	vfRegister("VfRIB_t1", VfRIB_t1)
 	vfRegister("VfRIB_t2", VfRIB_t2)
 	vfRegister("VfRIB_tOrder", VfRIB_tOrder)
@@ -58,4 +61,27 @@ func VfRIB_tOrder() {
 // retried), next to 1 next-hop and 1 group; one symbolic operation.
 func VfRIB_q3() {
 	vfRIBRun(vfRunCfg{pre: vfPreCfg{nNH: 1, nNHG: 1, nStale: 1, members: 1, topKinds: vfTopQ}, fixLow: true, steps: 1, members: 1})
+}
+
+// qx: cross-instance references: a next-hop and a group in each of the two instances (the same group id may
+// exist in both), 1 IPv4 entry in either instance with an optional explicit group instance; one
+// symbolic ADD/REPLACE/DELETE of an IPv4 entry (retargeting between instances).
+func VfRIB_qx() {
+	vfRIBRun(vfRunCfg{pre: vfPreCfg{nNH: 2, nNHG: 2, nTop: 1, members: 1, topKinds: []int{vfKV4}}, splitLow: true, steps: 1, members: 1, kinds: []int{vfKV4}})
+}
+
+// qo: acknowledgement order: 1 next-hop and 2 held IPv4 entries (possibly the same key with different
+// payloads) waiting for a group; one symbolic next-hop-group ADD/REPLACE that may resolve them;
+// every iteration order of the held-operation map.
+func VfRIB_qo() {
+	vfRIBRun(vfRunCfg{pre: vfPreCfg{nNH: 1, nHeld: 2, heldTopOnly: true, members: 1, topKinds: []int{vfKV4}}, fixLow: true, steps: 1, members: 1,
+		typLo: 1, typHi: 2, kinds: []int{vfKNHG}, mapOrder: true})
+}
+
+// qx2: held operations across instances: a next-hop in each instance, 1 held operation (group or IPv4
+// entry, either instance, optional explicit group instance); one symbolic next-hop / group ADD or
+// REPLACE in any instance that may make it resolvable.
+func VfRIB_qx2() {
+	vfRIBRun(vfRunCfg{pre: vfPreCfg{nNH: 2, nHeld: 1, members: 1, topKinds: []int{vfKV4}}, splitLow: true, steps: 1, members: 1,
+		typLo: 1, typHi: 2, kinds: []int{vfKNH, vfKNHG}})
 }
